@@ -878,7 +878,7 @@ func (e *SpecEnv) evalCall(n *SCall) SVal {
 		_, unbox := vc.sorts.boxFn(t)
 		return SVal{fmt.Sprintf("(%s %s)", unbox, arg(0).T), e.goST(t)}
 	case "isdyn":
-		id := n.Args[1].String()
+		id := typeText(n.Args[1].String())
 		t := vc.resolveGoType(id, e.pkg)
 		if t == nil {
 			specFail("isdyn: unknown type %s", id)
@@ -888,7 +888,7 @@ func (e *SpecEnv) evalCall(n *SCall) SVal {
 	case "implements":
 		// implements(i, I): the dynamic type of interface value i implements interface type I
 		// (the predicate a comma-ok type assertion to I tests)
-		id := n.Args[1].String()
+		id := typeText(n.Args[1].String())
 		t := vc.resolveGoType(id, e.pkg)
 		if t == nil {
 			specFail("implements: unknown type %s", id)
@@ -976,4 +976,10 @@ func resultNames(sig *types.Signature) []string {
 		out = append(out, n)
 	}
 	return out
+}
+
+// typeText undoes the expression parser's reading of a slash-separated package path as
+// divisions: "((x / pocketcore) / types.RelayProof)" -> "x/pocketcore/types.RelayProof"
+func typeText(s string) string {
+	return strings.NewReplacer("(", "", ")", "", " ", "").Replace(s)
 }
